@@ -1,10 +1,10 @@
-\* (E) exhaustive, quick: all command sequences of length <= 7, 6 candidate locations (4 globals + 2 scoped locals), spread request table
+\* (E) exhaustive, quick: all command sequences of length <= 6, 6 candidate locations (4 globals + 2 scoped locals), spread request table
 SPECIFICATION Spec
 CONSTANTS
   Globals = {"G0", "G1", "G2", "G3"}
   Locals = {"LA", "LB"}
   KindTab <- SpreadTab
-  MaxOps = 7
+  MaxOps = 6
   SlotFirst = TRUE
   Distribute = TRUE
   Gen = FALSE
